@@ -1,0 +1,48 @@
+//! Verification hooks (compiled only with `--cfg keepass_verif`).
+//!
+//! A scripted random source: while a script is installed on the current thread, `fill` serves the
+//! scripted draws in order and records every requested size; otherwise it forwards to the real
+//! `getrandom::fill`. Used by the external verification harness to make `save` deterministic and to
+//! observe which random draws it requests. Not part of the public API contract.
+
+use std::cell::RefCell;
+use std::collections::VecDeque;
+
+pub use ::getrandom::Error;
+
+thread_local! {
+    static SCRIPT: RefCell<Option<VecDeque<Vec<u8>>>> = RefCell::new(None);
+    static REQUESTED: RefCell<Vec<usize>> = RefCell::new(Vec::new());
+}
+
+/// Install a script of draws for the current thread (and clear the request log).
+pub fn script(draws: Vec<Vec<u8>>) {
+    SCRIPT.with(|s| *s.borrow_mut() = Some(draws.into_iter().collect()));
+    REQUESTED.with(|r| r.borrow_mut().clear());
+}
+
+/// Remove the script; subsequent calls use the operating system source again.
+pub fn unscript() {
+    SCRIPT.with(|s| *s.borrow_mut() = None);
+}
+
+/// Sizes requested since the last `script` call, in program order.
+pub fn requested() -> Vec<usize> {
+    REQUESTED.with(|r| r.borrow().clone())
+}
+
+/// Drop-in replacement for `getrandom::fill`.
+pub fn fill(dest: &mut [u8]) -> Result<(), Error> {
+    REQUESTED.with(|r| r.borrow_mut().push(dest.len()));
+    let scripted = SCRIPT.with(|s| match s.borrow_mut().as_mut() {
+        Some(q) => q.pop_front(),
+        None => None,
+    });
+    match scripted {
+        Some(d) if d.len() == dest.len() => {
+            dest.copy_from_slice(&d);
+            Ok(())
+        }
+        _ => ::getrandom::fill(dest),
+    }
+}
